@@ -85,6 +85,41 @@ func trackEntries(es []absEntry, el protocol.EntryList) {
 	_ = es
 }
 
+// bytesCompressingTo: incompressible bytes whose gzip stream (default level, as the library writes it) is exactly
+// target bytes long; falls back to the nearest it found
+func bytesCompressingTo(r *Rng, target int) []byte {
+	pool := r.Bytes(target + 8)
+	zlen := func(n int) int {
+		var b bytes.Buffer
+		w := gzip.NewWriter(&b)
+		_, _ = w.Write(pool[:n])
+		_ = w.Close()
+		return b.Len()
+	}
+	n := target - 23
+	if n < 0 {
+		n = 0
+	}
+	for try := 0; try < 80 && n >= 0 && n <= len(pool); try++ {
+		z := zlen(n)
+		if z == target {
+			break
+		}
+		if z < target {
+			n++
+		} else {
+			n--
+		}
+	}
+	if n < 0 {
+		n = 0
+	}
+	if n > len(pool) {
+		n = len(pool)
+	}
+	return pool[:n]
+}
+
 func gunzipOne(z []byte) (payload []byte, rest int, ok bool) {
 	br := bytes.NewReader(z)
 	zr, err := gzip.NewReader(br)
@@ -144,6 +179,9 @@ func primeComp(state string) {
 		_ = c.Write([]byte("x"))
 		c.Buffer.Write(bytes.Repeat([]byte{0xee}, 300))
 	}
+	for i := 0; i < 64; i++ {
+		_ = protocol.VerifCompressorPoolGet() // see PRIME buf: the primed compressor must be the next one handed out
+	}
 	protocol.VerifCompressorPoolPut(c)
 }
 
@@ -166,6 +204,11 @@ func init() {
 	opsArgs["PRIME"] = func(a []string) ([]string, string) {
 		histMode()
 		if a[0] == "buf" {
+			// sync.Pool hands out its per-P private slot first: empty the pool, so that the primed object is what the
+			// next Get returns (a primed object parked behind a clean one would never be seen)
+			for i := 0; i < 64; i++ {
+				_ = protocol.VerifBufferPoolGet()
+			}
 			protocol.VerifBufferPoolPut(bytes.NewBuffer(unhx(a[1])))
 		} else {
 			primeComp(a[1])
@@ -338,6 +381,18 @@ func genEntriesTok(r *Rng, tier string) string {
 }
 
 func genPacked(o *Out, r *Rng, n int, tier string) {
+	// systematic part: compressed-from-bytes messages whose gzip stream has exactly a round length or one byte either
+	// side, each followed by further compression calls (thresholds on the output size: pooling limits, buffer sizes)
+	for _, t := range []int{512, 1024, 2048, 4096, 8192, 16384, 32768, 65536} {
+		for d := -1; d <= 1; d++ {
+			o.emit("C07", "HRESET")
+			o.emit("C03", "CB", "74", hx(bytesCompressingTo(r, t+d)))
+			o.emit("C03", "CB", "74", hx(r.Bytes(40)))
+			o.emit("C03", "CP", "74", genEntriesTok(r, tier))
+			o.emit("C03", "CB", "74", hx(bytesCompressingTo(r, t+d)))
+			o.emit("C03", "CB", "74", hx(r.Bytes(5000)))
+		}
+	}
 	for h := 0; h < n; h++ {
 		o.emit("C07", "HRESET")
 		steps := 3 + r.Intn(8)
@@ -360,7 +415,14 @@ func genPacked(o *Out, r *Rng, n int, tier string) {
 				if r.Chance(10) {
 					sz = 0
 				}
-				o.emit("C03", "CB", tag, hx(r.Bytes(sz)))
+				in := r.Bytes(sz)
+				if r.Chance(30) {
+					// a payload whose gzip stream has exactly a round length (or one byte either side): thresholds on
+					// the size of the *output* (pooling limits, buffer sizes) sit there
+					targets := []int{512, 1024, 2048, 4096, 8192, 16384, 32768, 65536}
+					in = bytesCompressingTo(r, targets[r.Intn(len(targets))]+r.Intn(3)-1)
+				}
+				o.emit("C03", "CB", tag, hx(in))
 			case 7:
 				o.emit("C03", "MP", genEntriesTok(r, tier))
 			case 8:
